@@ -48,6 +48,16 @@ inductive AppData
   | malformed                             -- not JSON / actionContext not an object
   deriving Repr, DecidableEq
 
+/-- what the user's commit / rollback method returns: no error, an error, or (wrapped or not) the fence driver's
+    `ErrPhaseAlreadyApplied` — the method opened its transaction through the fence driver and the fence said
+    that the phase has been applied before, or that it is a rollback whose try never ran: nothing to do -/
+inductive UserOutcome | ok | fails | alreadyApplied
+  deriving Repr, DecidableEq
+
+/-- does the resource manager report the phase as done? -/
+def UserOutcome.done : UserOutcome → Bool
+  | .ok => true | .fails => false | .alreadyApplied => true
+
 structure Request where
   msgId : Nat
   commit : Bool
@@ -55,7 +65,7 @@ structure Request where
   branchId : Nat
   resource : String
   data : AppData
-  userFails : Bool          -- what the user's commit/rollback method will return
+  user : UserOutcome        -- what the user's commit/rollback method will return
   deriving Repr, DecidableEq
 
 def known (registered : List String) (r : Request) : Bool := registered.contains r.resource
@@ -66,11 +76,11 @@ def ctxOf : AppData → Option (List (String × String))
 
 /-- one phase-two request against the set of registered action names -/
 def phaseTwo (registered : List String) (r : Request) : List Ev :=
-  match known registered r, r.data, r.userFails with
+  match known registered r, r.data, r.user.done with
   | false, _, _ => []                                  -- unknown resource: no user code, no reply
   | true, .malformed, _ => []                          -- panics before any user code (recovered by the task pool)
-  | true, d, true => [.invoke r.commit r.xid r.branchId (ctxOf d)]   -- manager returns an error: nothing is reported
-  | true, d, false => [.invoke r.commit r.xid r.branchId (ctxOf d), .respond r.msgId r.commit r.xid r.branchId true]
+  | true, d, false => [.invoke r.commit r.xid r.branchId (ctxOf d)]   -- manager returns an error: nothing is reported
+  | true, d, true => [.invoke r.commit r.xid r.branchId (ctxOf d), .respond r.msgId r.commit r.xid r.branchId true]
 
 def phaseTwoAll (registered : List String) (rs : List Request) : List Ev := rs.flatMap (phaseTwo registered)
 
